@@ -46,7 +46,7 @@ def scenario(big: bool = False) -> Any:
             d["mws"] = [{"post_execute": {"async": pa, "fail_on": pf}}]
         return d
 
-    msg = cm.message(kinds=("async", "async", "async", "async", "sync", "bad", "unknown"),
+    msg = cm.message(kinds=("async", "async", "async", "async", "sync", "bad", "unknown", "plaincls"),
                      acks=("sync", "sync", "async", "async", "future", "deferred", "sync_fail", "async_fail"), timeouts=(None, None, None, 0.3, 1, "0.35"), cleanups=(0, 0, 0, 0.2))
     return st.fixed_dictionaries({
         "A": st.integers(1, 6 if big else 4), "P": st.integers(0, 6 if big else 3), "N": st.sampled_from([None, None, None, 1, 2, 3, 4] + ([6, 9] if big else [])),
